@@ -23,6 +23,15 @@ Theorem C06_excess : forall (pts : list FR.pt) (p : list R), FR.normal_eqs pts p
 Proof. exact normal_eqs_excess. Qed.
 Print Assumptions C06_excess.
 
+(** two solutions of the normal equations agree at every data point of non-zero weight (the
+    least-squares polynomial is unique as a function on the data), so comparing numpy.polyfit with
+    the certified solver compares it with THE optimum *)
+Theorem C06_unique_on_data : forall (pts : list FR.pt) (p q : list R),
+  FR.normal_eqs pts p -> FR.normal_eqs pts q -> length q = length p ->
+  forall t, In t pts -> (FR.pw t * (FR.peval q (FR.px t) - FR.peval p (FR.px t)))%R = 0%R.
+Proof. exact normal_eqs_agree. Qed.
+Print Assumptions C06_unique_on_data.
+
 (** the weights handed to polyfit are 1/sigma (generated text); polyfit multiplies the residual by
     them, so the minimised quantity is sum ((y - P(x))/sigma)^2 and the normal equations carry 1/sigma^2 *)
 Theorem C06_weights : forall (data : list (R * R * R)) (p : list R),
